@@ -166,3 +166,19 @@ Theorem C04_limited_iterator_pulls : forall (D : nat -> option nat), (forall i, 
   LayerC3.lim_pulls D W limit cs (idx, LayerC.it_new W c0 idx) = LayerC3.expectE (LayerC3.Elim D limit) (length cs) idx.
 Proof. exact LayerC3.limited_iterator_pulls. Qed.
 Print Assumptions C04_limited_iterator_pulls.
+
+(* the history model's answers to successive pulls of a forward iterator = the pairs the composed iterator stacks
+   deliver (C04_full_iterator_of_number / _of_limited_number), so the pull paths are tied end to end as well *)
+Theorem C04_pulls_are_model : forall d sp, Views.wf_spec sp -> HistReads.digits_ok d -> forall n p,
+  HistReads.hnx_fwd d (HistModel.omin2 (Views.spec_hi sp) (HistModel.dlen d)) (Z.of_nat p) n
+  = map (option_map HistReads.zpair)
+        (LayerC3.expect_pairs (ViewReads.Dview (HistReads.Dn d) (HistReads.nspec_of sp)) n p).
+Proof. exact HistReads.hnx_is_pairs. Qed.
+Print Assumptions C04_pulls_are_model.
+
+(* and hnx_fwd is literally what the executable history model (the oracle of the correspondence runs) answers to
+   n successive NX operations on one forward iterator *)
+Theorem C04_model_pulls : forall ver d vs n p h lo,
+  HistModel.run_ops ver d (HistModel.mkH vs [Some (HistModel.mkIt p true h lo true)]) (repeat (HistModel.HNX 0) n)
+  = flat_map HistReads.enc_pull (HistReads.hnx_fwd d h p n).
+Proof. exact HistReads.run_ops_pulls. Qed.
